@@ -49,8 +49,9 @@ structure Part where
 
 /-- the copies of new chunk `n` along this axis, or the error the code raises -/
 def plan (a : Axis) (n : Nat) : Except Err (List Part) :=
-  if half a = 0 then .error .zeroDiv else
+  -- (the factor test of all axes precedes the division, as in the code)
   if a.ns ≠ ceilDiv a.os (factor a) then .error .factor else
+  if half a = 0 then .error .zeroDiv else
   let E := newExtent a n
   let c := n * fetch a
   match dsLen a c with
